@@ -723,10 +723,238 @@ func scenarioNewMemberMostUpToDate(r *vh.Rand) (string, []string) {
 	return g.c.Header(), g.ops
 }
 
+// scenario 12 (PreVote): replica 3 is cut off and lags behind a compacted log; when the
+// partition heals it rejects the leader's Replicate, the InstallSnapshot answer is delayed,
+// 3 times out and becomes a pre-vote candidate (same term), and only then the snapshot arrives.
+func scenarioCandidateGetsSnapshot(r *vh.Rand) (string, []string) {
+	g := newScenarioGen(r, 3, uint64(5+r.Intn(3)), false, true)
+	if !g.elect(1, nil) {
+		return g.c.Header(), g.ops
+	}
+	pair := only(1, 2)
+	for i := 0; i < 3+r.Intn(3); i++ {
+		g.propose(1)
+		g.dropPool(func(m pb.Message) bool { return m.To == 3 || m.From == 3 })
+		g.settle(pair)
+	}
+	for _, k := range []uint64{1, 2} {
+		g.update(k)
+		g.apply(k, 100)
+		g.snapshot(k, 0)
+	}
+	g.dropPool(func(m pb.Message) bool { return true })
+	// the partition heals: heartbeat, Replicate, rejection, and the leader answers with a snapshot
+	isSnap := func(m pb.Message) bool { return m.Type == pb.InstallSnapshot }
+	for i := 0; i < 6 && !g.Stopped; i++ {
+		g.do("T 1")
+		g.update(1)
+		g.settle(func(m pb.Message) bool { return !isSnap(m) })
+		found := false
+		for _, m := range g.Pool {
+			if isSnap(m) && m.To == 3 {
+				found = true
+			}
+		}
+		if found {
+			break
+		}
+	}
+	// 3 hears nothing more, times out and asks for pre-votes; then the snapshot arrives
+	g.dropPool(func(m pb.Message) bool { return !isSnap(m) })
+	g.tickUntil(3, func() bool { return g.role(3) == 2 || g.role(3) == 1 }, 80)
+	g.dropPool(func(m pb.Message) bool { return !isSnap(m) })
+	g.settle(isSnap)
+	g.settle(nil)
+	for i := 0; i < 3 && !g.Stopped; i++ {
+		g.do("T 1")
+		g.update(1)
+		g.settle(nil)
+	}
+	return g.c.Header(), g.ops
+}
+
+// scenario 13: the deposed leader 1 holds an uncommitted tail of its old term; the new leader
+// has compacted its log and answers 1's rejection with InstallSnapshot; the transport reports
+// the snapshot as delivered but the message never reaches 1's raft node; heartbeats follow.
+func scenarioSnapshotReportedButLost(r *vh.Rand) (string, []string) {
+	g := newScenarioGen(r, 3, uint64(5+r.Intn(3)), false, false)
+	if !g.elect(1, nil) {
+		return g.c.Header(), g.ops
+	}
+	g.propose(1)
+	g.settle(nil)
+	for _, k := range g.liveIDs() {
+		g.update(k)
+		g.apply(k, 100)
+	}
+	g.settle(nil)
+	// 1 is cut off and keeps appending
+	for i := 0; i < 3; i++ {
+		g.propose(1)
+	}
+	g.dropPool(func(m pb.Message) bool { return true })
+	side := only(2, 3)
+	if !g.elect(2, side) {
+		return g.c.Header(), g.ops
+	}
+	g.propose(2)
+	g.settle(side)
+	for _, k := range []uint64{2, 3} {
+		g.update(k)
+		g.apply(k, 100)
+	}
+	g.settle(side)
+	g.snapshot(2, 0)
+	g.dropPool(func(m pb.Message) bool { return true })
+	// the partition heals; everything goes through except InstallSnapshot
+	isSnap := func(m pb.Message) bool { return m.Type == pb.InstallSnapshot }
+	sent := false
+	for i := 0; i < 8 && !g.Stopped && !sent; i++ {
+		g.do("T 2")
+		g.update(2)
+		g.settle(func(m pb.Message) bool { return !isSnap(m) })
+		for _, m := range g.Pool {
+			if isSnap(m) && m.To == 1 {
+				sent = true
+			}
+		}
+	}
+	if !sent || g.Stopped {
+		return g.c.Header(), g.ops
+	}
+	g.dropPool(isSnap)
+	g.do("SS 2 1 0") // reported as delivered
+	g.update(2)
+	for i := 0; i < 3 && !g.Stopped; i++ {
+		g.do("T 2")
+		g.update(2)
+		g.settle(func(m pb.Message) bool { return !isSnap(m) })
+		g.update(1)
+		g.dropPool(isSnap)
+	}
+	return g.c.Header(), g.ops
+}
+
+// scenario 14: two membership changes (3 -> 5 voters) are committed; replica 3 has them
+// committed and handed out but not applied, replica 2 lags; 3's timer fires while it is
+// partitioned with 2, and a member of the new configuration campaigns on the other side.
+func scenarioUnappliedChangesAndTimeout(r *vh.Rand) (string, []string) {
+	g := newScenarioGen(r, 3, uint64(5+r.Intn(3)), false, false)
+	if !g.elect(1, nil) {
+		return g.c.Header(), g.ops
+	}
+	hold := map[uint64]bool{3: true}
+	not2 := func(m pb.Message) bool { return m.To != 2 && m.From != 2 }
+	for _, id := range []uint64{4, 5} {
+		g.nextKey++
+		g.cc(1, uint64(pb.AddNode), id)
+		g.update(1)
+		g.settleHold(not2, hold)
+		g.update(1)
+		g.apply(1, 100)
+		g.settleHold(not2, hold)
+		g.do(fmt.Sprintf("START %d V . -", id))
+		for i := 0; i < 4 && !g.Stopped; i++ {
+			g.do("T 1")
+			g.update(1)
+			g.settleHold(not2, hold)
+			for _, k := range g.liveIDs() {
+				if k != 2 && k != 3 {
+					g.update(k)
+					g.apply(k, 100)
+				}
+			}
+		}
+		g.settleHold(not2, hold)
+	}
+	g.dropPool(func(m pb.Message) bool { return true })
+	t0 := g.term(1)
+	// 3 (old configuration in force, both changes unapplied) times out next to 2
+	g.tickUntil(3, func() bool { return g.role(3) == 1 && g.term(3) == t0+1 }, 60)
+	g.settleHold(only(2, 3), hold)
+	// 4 times out among the members of the new configuration
+	g.tickUntil(4, func() bool { return g.role(4) == 1 && g.term(4) == t0+1 }, 80)
+	g.settleHold(only(1, 4, 5), hold)
+	return g.c.Header(), g.ops
+}
+
+// scenario 15: replica 2 persists a membership change that is still uncommitted, restarts
+// (its in-memory log is empty, the tail is in the log store), wins the next election and
+// is asked for another membership change before the first one commits.
+func scenarioRestartedLeaderPendingChange(r *vh.Rand) (string, []string) {
+	g := newScenarioGen(r, 3, uint64(5+r.Intn(3)), false, false)
+	if !g.elect(1, nil) {
+		return g.c.Header(), g.ops
+	}
+	g.propose(1)
+	g.settle(nil)
+	g.nextKey++
+	g.cc(1, uint64(pb.AddNode), 4)
+	g.update(1)
+	g.settle(func(m pb.Message) bool { return m.Type == pb.Replicate && m.From == 1 && m.To == 2 })
+	g.update(2)
+	g.dropPool(func(m pb.Message) bool { return true })
+	g.do("RESTART 2")
+	side := only(2, 3)
+	t0 := g.term(2)
+	g.tickUntil(2, func() bool { return g.role(2) == 1 && g.term(2) > t0 }, 80)
+	g.settle(func(m pb.Message) bool {
+		return side(m) && (m.Type == pb.RequestVote || m.Type == pb.RequestVoteResp)
+	})
+	if g.Stopped || g.role(2) != 3 {
+		return g.c.Header(), g.ops
+	}
+	g.dropPool(func(m pb.Message) bool { return true })
+	g.nextKey++
+	g.cc(2, uint64(pb.AddNode), 5)
+	g.update(2)
+	g.settle(side)
+	for i := 0; i < 3 && !g.Stopped; i++ {
+		g.do("T 2")
+		g.update(2)
+		g.settle(side)
+	}
+	return g.c.Header(), g.ops
+}
+
+// scenario 16 (PreVote without CheckQuorum): a transfer target is cut off right after
+// TimeoutNow, so it moves to a higher term alone; the leader gives up the transfer and
+// commits more entries. (The fault-free phase then has to bring the stale replica back.)
+func scenarioStaleHigherTermReplica(r *vh.Rand) (string, []string) {
+	g := newScenarioGen(r, 3, uint64(5+r.Intn(3)), false, true)
+	if !g.elect(1, nil) {
+		return g.c.Header(), g.ops
+	}
+	g.propose(1)
+	g.settle(nil)
+	g.do("LT 1 3")
+	g.update(1)
+	g.settle(func(m pb.Message) bool { return m.Type == pb.TimeoutNow })
+	g.update(3)
+	g.dropPool(func(m pb.Message) bool { return m.To == 3 || m.From == 3 })
+	pair := only(1, 2)
+	for i := 0; i < 2*int(g.c.ET)+2 && !g.Stopped; i++ {
+		g.do("T 1")
+		g.update(1)
+		g.dropPool(func(m pb.Message) bool { return m.To == 3 || m.From == 3 })
+		g.settle(pair)
+	}
+	if g.role(1) == 3 {
+		g.propose(1)
+		g.dropPool(func(m pb.Message) bool { return m.To == 3 || m.From == 3 })
+		g.settle(pair)
+		g.update(1)
+		g.settle(pair)
+	}
+	g.dropPool(func(m pb.Message) bool { return true })
+	return g.c.Header(), g.ops
+}
+
 var scenarios = []func(r *vh.Rand) (string, []string){
 	scenarioTransferWithUnappliedChange,
 	scenarioVoteRace, scenarioTransferRemove, scenarioDeposedLeaderRead, scenarioDelayedConfirmation,
 	scenarioReelectedLeaderRead, scenarioWitnessGuardsCommitted, scenarioPromotedNonVotingVotes,
 	scenarioMinorityLeaderRepeatedAcks, scenarioSingleVoterWithWitnesses, scenarioRemovedLeaderDuringTransfer,
-	scenarioNewMemberMostUpToDate,
+	scenarioNewMemberMostUpToDate, scenarioCandidateGetsSnapshot, scenarioSnapshotReportedButLost,
+	scenarioUnappliedChangesAndTimeout, scenarioRestartedLeaderPendingChange, scenarioStaleHigherTermReplica,
 }
